@@ -3,7 +3,7 @@
   Property theorems only; the inductive invariants live in Lemmas/Batcher.lean.
 
   OBLIGATIONS (audited by `check` with `#print axioms`):
-    capacity_bound, send_overflow_keeps_newest, truncation_discards_exactly_capacity, send_no_overflow_appends, send_total, try_send_hands_back,
+    capacity_bound, send_overflow_keeps_newest, truncation_discards_exactly_capacity, send_no_overflow_appends, send_total, sampling_is_a_read, try_send_hands_back,
     send_or_wait_partial
 -/
 import EmitModel.Lemmas.Batcher
@@ -69,6 +69,16 @@ theorem send_total (cfg : Cfg) (s : St) (x : Nat) (ha : s.senderAlive = true) :
   refine ⟨send cfg s x, by simp [step, ha], (send_rx cfg s x).1, ?_⟩
   unfold send
   by_cases hc : s.pending.length ≥ cfg.cap <;> by_cases ho : s.isOpen <;> simp [hc, ho, truncate, push, ha]
+
+/-- **Sampling never holds the lock while calling out**: `sample_metrics` is a read (`sampleQueueLength`, within
+    the bound) that leaves the state as it is, so a sampler that emits into the channel it samples performs an
+    ordinary `send` — enabled in every state, one atomic step (`send_total`) — never a wait on itself. -/
+theorem sampling_is_a_read (cfg : Cfg) (hcap : 1 ≤ cfg.cap) (s : St) (h : Reachable cfg s) (x : Nat)
+    (ha : s.senderAlive = true) :
+    sampleQueueLength s ≤ cfg.cap ∧ ∃ s', step cfg s (.send x) = some s' ∧ s'.rx = s.rx := by
+  refine ⟨capacity_bound cfg hcap s h, ?_⟩
+  obtain ⟨s', h1, h2, _⟩ := send_total cfg s x ha
+  exact ⟨s', h1, h2⟩
 
 /-- **`try_send` never discards silently**: on an open channel it either appends the item, or returns that very
     item with the state unchanged; on a closed channel it changes nothing (and reports the closure). -/
